@@ -278,6 +278,35 @@ def cursor_step(f, L, cur, stores):
     return True, None
 
 
+def cursor_dir(f, L, v):
+    """+1 / -1 when the pointer v is a header phi of L (possibly moved by constant GEPs) that steps up / down by one per
+    iteration, else 0"""
+    for _ in range(6):
+        if v.k != 'inst':
+            return 0
+        i = f.insts[v.id]
+        if i.op == 'getelementptr' and all(s_.get('v', {}).get('k') == 'ci' for s_ in i.d['gep']['steps']):
+            v = i.ops[0]
+            continue
+        if i.op == 'phi' and i.block is L['header']:
+            steps = set()
+            for (bb, o) in i.incoming:
+                if f.bmap[bb] in L['blocks']:
+                    d = 0
+                    x = o
+                    while x.k == 'inst' and f.insts[x.id].op == 'getelementptr' and \
+                            all(s_.get('v', {}).get('k') == 'ci' for s_ in f.insts[x.id].d['gep']['steps']):
+                        d += sum(s_['stride'] * s_['v']['v'] for s_ in f.insts[x.id].d['gep']['steps'])
+                        x = f.insts[x.id].ops[0]
+                    steps.add(d if x.k == 'inst' and x.id == i.id else None)
+            if steps == {1}:
+                return 1
+            if steps == {-1}:
+                return -1
+        return 0
+    return 0
+
+
 def digits_rule(rep, f, A):
     """R-DIGITS: the two emitting loops are the textbook conversions (IR dataflow): integer part by repeated division
     by ten, fraction by repeated multiplication by ten"""
@@ -466,6 +495,15 @@ def ftoa_check(rep, mod):
                         ok = False
                         det = 'the swap reads a byte after a store of the same swap may have overwritten it'
             sink.inst('R-FTOA', fname, 'reversal-swaps-mirror-positions', ok, w, det)
+            if li is not None and li.op == 'load' and isinstance(q, PtrVal):
+                dp, dq = cursor_dir(f, RL, i.ops[1]), cursor_dir(f, RL, li.ops[0])
+                if {dp, dq} != {1, -1}:
+                    raise AnalysisBroken('%s: the reversal does not work with one ascending and one descending cursor' % fname)
+                lo_, hi_ = (p.off, q.off) if dp == 1 else (q.off, p.off)
+                ok = st.cons.entails_le(lo_, hi_)
+                sink.inst('R-FTOA', fname, 'reversal-stops-when-the-cursors-meet', ok, w,
+                          'a swap is executed with the ascending cursor at offset %r and the descending one at %r: once they '
+                          'have crossed, pairs are swapped back%s' % (lo_, hi_, interp.explain(st, [lo_, hi_])))
             return
         if i.id in frac_stores:
             vl, ok = digit_char(st, v)
